@@ -366,12 +366,12 @@ theorem recLoop_sim (hg : Gen.Buf.ensureGrowOnly = true) (hr : Gen.Buf.moveToRew
         RecSt { c with buf := b' } (applyRecords f lm recs gs ps).1 (applyRecords f lm recs gs ps).2 positions' count' endv' T ∧
         b'.maxLen = c.buf.maxLen ∧ b'.flags = c.buf.flags ∧ endv' + gs.length = endv + (applyRecords f lm recs gs ps).1.length ∧
         b'.outLen + (inP b').length ≤ c.buf.outLen + (inP c.buf).length + recs.length * Gr ∧
-        c.buf.maxOps - (recs.length : Int) ≤ b'.maxOps := by
+        c.buf.maxOps - (recs.length : Int) ≤ b'.maxOps ∧ endv ≤ endv' := by
   intro recs
   induction recs with
   | nil =>
     intro c gs ps positions count endv h _ _ _ _ _ _ _
-    exact ⟨c.buf, positions, count, endv, rfl, h, rfl, rfl, rfl, by simp, by simp⟩
+    exact ⟨c.buf, positions, count, endv, rfl, h, rfl, rfl, rfl, by simp, by simp, Nat.le_refl _⟩
   | cons rec rest ih =>
     obtain ⟨s, idx⟩ := rec
     intro c gs ps positions count endv h hf hm hrnd hnest hbud hctx hops
@@ -384,10 +384,10 @@ theorem recLoop_sim (hg : Gen.Buf.ensureGrowOnly = true) (hr : Gen.Buf.moveToRew
     · -- sequence index out of range: skipped on both sides
       have hnone : ps[s]? = none := List.getElem?_eq_none (by rw [h.cnt]; exact hs)
       rw [loop_skip _ c positions count _ s idx rest h.succ hs, applyRecords_cons_none f lm s idx rest gs ps hnone]
-      obtain ⟨b', positions', count', endv', hrun, hst', hml', hfl', hacc, htl, hmo'⟩ :=
+      obtain ⟨b', positions', count', endv', hrun, hst', hml', hfl', hacc, htl, hmo', hee⟩ :=
         ih c gs ps positions count endv h hf hm hrnd hnest' (by omega) (by omega) (by omega)
       exact ⟨b', positions', count', endv', hrun, hst', hml', hfl', hacc, by simp only [List.length_cons]; rw [hmul]; omega,
-        by simp only [List.length_cons]; omega⟩
+        by simp only [List.length_cons]; omega, hee⟩
     · have hslt : s < count := by omega
       have hsps : s < ps.length := by rw [h.cnt]; exact hslt
       obtain ⟨pi, hpi⟩ : ∃ pi, ps[s]? = some pi := ⟨ps[s], List.getElem?_eq_getElem hsps⟩
@@ -461,7 +461,7 @@ theorem recLoop_sim (hg : Gen.Buf.ensureGrowOnly = true) (hr : Gen.Buf.moveToRew
           · show ∀ y ∈ outP b1 ++ inP b1, CtxG y
             rw [hseq1]; exact hglyphL
         have hi1l : (inP b1).length = L.length - pi := by rw [hi1]; simp
-        obtain ⟨b', positions', count', endv', hrun, hst', hml', hfl', hacc, htl, hmo'⟩ :=
+        obtain ⟨b', positions', count', endv', hrun, hst', hml', hfl', hacc, htl, hmo', hee⟩ :=
           ih { c with buf := { b1 with maxOps := b1.maxOps - 1 } } gs ps positions count endv hst hf hm hrnd hnest'
             (by
               show b1.outLen + (inP b1).length + rest.length * Gr ≤ b1.maxLen
@@ -469,7 +469,7 @@ theorem recLoop_sim (hg : Gen.Buf.ensureGrowOnly = true) (hr : Gen.Buf.moveToRew
               rw [hol1, hml1, this]; omega)
             (by omega)
             (by show (rest.length : Int) ≤ b1.maxOps - 1; rw [hops1]; omega)
-        refine ⟨b', positions', count', endv', hrun, hst', by rw [hml']; exact hml1, by rw [hfl']; exact hfl1, hacc, ?_, ?_⟩
+        refine ⟨b', positions', count', endv', hrun, hst', by rw [hml']; exact hml1, by rw [hfl']; exact hfl1, hacc, ?_, ?_, hee⟩
         rotate_left
         · have : b1.maxOps - 1 - (rest.length : Int) ≤ b'.maxOps := hmo'
           simp only [List.length_cons]; rw [hops1] at this; omega
@@ -579,9 +579,9 @@ theorem recLoop_sim (hg : Gen.Buf.ensureGrowOnly = true) (hr : Gen.Buf.moveToRew
             (by rw [hops1]; omega) hrec hho2 (by simpa using hnew)]
           have hst := hst2 positions (by simpa using h.cle) (by rw [posAfter_zero]; simpa using h.pos)
           simp only [Nat.add_zero] at hst
-          obtain ⟨b', positions', count', endv', hrun, hst', hml', hfl', hacc, htl, hmo'⟩ :=
+          obtain ⟨b', positions', count', endv', hrun, hst', hml', hfl', hacc, htl, hmo', hee⟩ :=
             ih { c with buf := b2 } gs2 (posAfter ps s pi 0) positions count endv hst hf hm hrnd hnest' hbud2 (by omega) hops2'
-          refine ⟨b', positions', count', endv', hrun, hst', ?_, ?_, ?_, htot2 _ htl, hmops2 _ hmo'⟩
+          refine ⟨b', positions', count', endv', hrun, hst', ?_, ?_, ?_, htot2 _ htl, hmops2 _ hmo', by omega⟩
           · rw [hml']; show b2.maxLen = _; rw [hml2]; exact hml1
           · rw [hfl']; show b2.flags = _; rw [hfl2]; exact hfl1
           · exact hacc2 endv' _ (by simpa using hacc)
@@ -592,9 +592,9 @@ theorem recLoop_sim (hg : Gen.Buf.ensureGrowOnly = true) (hr : Gen.Buf.moveToRew
             (by rw [hops1]; omega) hrec hho2 hnew hdpos (by omega) (by omega)]
           simp only [bind, Except.bind, hcw, hfill]
           have hst := hst2 _ (by simpa using hQl) hQt
-          obtain ⟨b', positions', count', endv', hrun, hst', hml', hfl', hacc, htl, hmo'⟩ :=
+          obtain ⟨b', positions', count', endv', hrun, hst', hml', hfl', hacc, htl, hmo', hee⟩ :=
             ih { c with buf := b2 } gs2 (posAfter ps s pi d) _ (count + d) (endv + d) hst hf hm hrnd hnest' hbud2 (by omega) hops2'
-          refine ⟨b', positions', count', endv', hrun, hst', ?_, ?_, ?_, htot2 _ htl, hmops2 _ hmo'⟩
+          refine ⟨b', positions', count', endv', hrun, hst', ?_, ?_, ?_, htot2 _ htl, hmops2 _ hmo', by omega⟩
           · rw [hml']; show b2.maxLen = _; rw [hml2]; exact hml1
           · rw [hfl']; show b2.flags = _; rw [hfl2]; exact hfl1
           · exact hacc2 endv' _ hacc
